@@ -33,8 +33,11 @@ LEVEL_TEXT = ("Machine-checked proof (Coq, closed under the global context) over
 LEVEL_NOTE = ("Trusted: Coq kernel + vm_compute; hand-written model coq/Model/C42.v validated by the "
               "correspondence run; universal-newline ('U') and text decoding are outside the Coq model and are "
               "covered only by the implementation-level oracle on ASCII data (readline()/iteration without "
-              "size); a stream whose _write returns 0 or a negative count is outside the model (hypothesis "
-              "1 <= count <= len(data)); exceptions raised by the stream are not modelled.")
+              "size); a stream whose _write returns 0 is outside the Coq model (hypothesis 1 <= count <= len(data)) "
+              "but inside the direct oracle: with finitely many 0 / short counts everything must still arrive, in "
+              "order, in every buffering mode (a stream returning 0 forever makes _write_all spin -- a liveness "
+              "question C42's text does not cover); negative counts are not considered; exceptions raised by the "
+              "stream are modelled for read(n) only, the write side under exceptions is oracle-only.")
 TECHNIQUE = "Coq proof (loop invariants over fuelled loops, induction over op sequences) + vm_compute differential correspondence + direct oracle"
 
 MODES = ["r", "w", "r+", "a", "a+", "w+"]
@@ -303,7 +306,7 @@ def gen_case(rng, big=False):
     n = rng.choice([0, 1, 2, 5, 10, 20, 40, rng.randrange(0, 80)])
     if big:
         n = rng.choice([8191, 8192, 8193, 9000, 20000])
-    alphabet = rng.choice([b"xy\n", b"xyz\n\n\n", b"ab\r\n", bytes(range(256)), b"\n"])
+    alphabet = rng.choice([b"xy\n", b"xyz\n\n\n", b"ab\r\n", b"a\r\r\n\x0b\x0c\x1c\x1d\x1e\x85", bytes(range(256)), b"\n"])
     data = bytes(rng.choice(alphabet) for _ in range(n))
     if big:
         pat = bytes(rng.choice(alphabet) for _ in range(rng.choice([7, 64, 100])))
@@ -738,7 +741,8 @@ def write_fault_case(ctx, case):
                 if st["faults"].pop(0):
                     raise socket.timeout()
             c = st["wo"].pop(0) if st["wo"] else len(d)
-            k = max(1, min(c, len(d)))
+            # 0 = "nothing accepted right now" (finitely often): the rest must still be delivered later
+            k = 0 if c == 0 else max(1, min(c, len(d)))
             st["out"] += bytes(d[:k])
             return k
 
@@ -775,10 +779,11 @@ def write_fault_case(ctx, case):
                      "a flush interrupted by an exception AFTER the stream accepted part of the data keeps the whole "
                      "buffer: the retry delivers the accepted prefix twice", case=desc, expected=written, observed=out)
         else:
-            ctx.fail("write-lost-after-exception",
-                     "data pending in the write buffer when the stream raised during flush never reaches the stream "
-                     "(or arrives out of order) although flush()/close() later succeed", case=desc,
-                     expected=written, observed=out)
+            ctx.fail("write-lost-after-exception" if any(faults) else "write-lost-on-zero-or-short-count",
+                     "data handed to write() never reaches the stream (or arrives out of order) although flush()/"
+                     "close() succeed: %s" % ("the stream raised during a flush and then recovered" if any(faults)
+                                              else "the stream's _write returned 0 / short counts"),
+                     case=desc, expected=written, observed=out)
 
 
 def channel_write_timeout_case(ctx, bufsize, pieces):
@@ -846,11 +851,16 @@ def write_faults_oracle(ctx, rng, n):
                 piece = piece[:-1] + b"\n"
             pieces.append(piece)
             total += ln
-        wo = [rng.choice([1, 2, 5, 100000]) for _ in range(rng.randrange(0, 20))]
+        wo = [rng.choice([0, 0, 1, 2, 5, 100000]) for _ in range(rng.randrange(0, 20))]
         faults = [rng.random() < 0.4 for _ in range(rng.randrange(1, 12))]
+        if j % 4 == 0:
+            # no exceptions at all, every buffering mode incl. unbuffered: zero / short / full counts only
+            faults = []
+            bufsize = rng.choice([-1, 0, 1, 2, 8, 64, 8192])
         case = (bufsize, pieces, wo, faults, only_at_start)
-        ctx.count(("wfault", case), nontrivial=any(faults) and total > 0,
-                  kind="write-fault-at-start" if only_at_start else "write-fault-anywhere")
+        ctx.count(("wfault", case), nontrivial=(any(faults) or 0 in wo) and total > 0,
+                  kind="write-zero-short-counts" if not faults else
+                  "write-fault-at-start" if only_at_start else "write-fault-anywhere")
         write_fault_case(ctx, case)
     for bs in (2, 64, 8192, 1):
         pieces = [bytes(rng.randrange(32, 127) for _ in range(rng.randrange(1, 30))) for _ in range(rng.randrange(1, 4))]
